@@ -77,11 +77,14 @@ def batch_check(pr, case):
     a1, a2, mt = np.array(case['a1']), np.array(case['a2']), np.array(case['mt'])
     ratio, px, py = np.array(case['ratio']), np.array(case['frac_x']), np.array(case['frac_y'])
     S, K, M = a1.shape[0], a1.shape[1], mt.shape[1]
+    args = [ratio.copy(), mt.copy(), a1.copy(), a2.copy(), px.copy(), py.copy()]
     try:
         with np.errstate(all='ignore'):
-            got = np.asarray(pr.amplitude_ratio_ln_pdf(ratio.copy(), mt.copy(), a1.copy(), a2.copy(), px.copy(), py.copy()), dtype=float)
+            got = np.asarray(pr.amplitude_ratio_ln_pdf(*args), dtype=float)
     except Exception as ex:
         return 'raised %s: %s' % (type(ex).__name__, ex)
+    if not all(np.array_equal(x, y) for x, y in zip(args, [ratio, mt, a1, a2, px, py])):
+        return 'the arrays handed in were changed by the call (they are reused for the next batch of tensors)'
     if got.size != K * M:
         return 'result of shape %r for %d location samples and %d tensors' % (got.shape, K, M)
     got = got.reshape(K, M)
